@@ -3,7 +3,9 @@
 #include <algorithm>
 #include <atomic>
 #include <initializer_list>
+#include <iterator>
 #include <memory>
+#include <type_traits>
 
 #include "resolvo_slice.h"
 #include "resolvo_vector_internal.h"
@@ -51,10 +53,19 @@ struct Vector {
 
     /// Constructs the container with the contents of the range `[first, last)`.
     template <class InputIt>
-    Vector(InputIt first, InputIt last)
-        : Vector(Vector::with_capacity(std::distance(first, last))) {
-        std::uninitialized_copy(first, last, begin());
-        inner->size = inner->capacity;
+    Vector(InputIt first, InputIt last) : Vector() {
+        using category = typename std::iterator_traits<InputIt>::iterator_category;
+        if constexpr (std::is_base_of_v<std::forward_iterator_tag, category>) {
+            *this = Vector::with_capacity(std::distance(first, last));
+            std::uninitialized_copy(first, last, begin());
+            inner->size = inner->capacity;
+        } else {
+            // A single-pass range (e.g. std::istream_iterator) cannot be measured first:
+            // `std::distance` would consume it.
+            for (; first != last; ++first) {
+                push_back(*first);
+            }
+        }
     }
 
     /// Creates a new vector by copying the contents of another vector.
